@@ -120,6 +120,19 @@ pub const VALID_EXPRS: &[&str] = &[
 /// the quick tier of seed 1 exercises them by design, not by luck (see scripts/sensitivity.sh fixes).
 pub const REGRESSION_FROM: usize = 64;
 
+/// braille codes with the non-default values of their own preferences (each is a different path through the clean-up code)
+pub const BRAILLE_VARIANTS: &[(&str, &[(&str, &str)])] = &[
+    ("UEB", &[("UEB_START_MODE", "Grade1")]),
+    ("UEB", &[("UEB_UseSpacesAroundAllOperators", "true"), ("UseSpacesAroundAllOperators", "true")]),
+    ("UEB", &[("UEB_START_MODE", "Grade1"), ("UEB_UseSpacesAroundAllOperators", "true"), ("UEB_DoubleStruck", "\u{2818}\u{283c}"), ("UEB_GreekVariant", "\u{2838}")]),
+    ("Vietnam", &[("Vietnam_UseDropNumbers", "true")]),
+    ("Vietnam", &[("UEB_START_MODE", "Grade1"), ("Vietnam_GreekVariant", "\u{2828}")]),
+    ("LaTeX", &[("LaTeX_UseShortName", "true")]),
+    ("Nemeth", &[("UseSpacesAroundAllOperators", "true")]),
+    ("CMU", &[("UseSpacesAroundAllOperators", "true"), ("UEB_START_MODE", "Grade1")]),
+    ("Swedish", &[("UEB_START_MODE", "Grade1")]),
+];
+
 /// documented values of the ClearSpeak preferences (comments of Rules/prefs.yaml); "Auto" is the default of all but one
 pub const CLEARSPEAK_VALUES: &[(&str, &[&str])] = &[
     ("ClearSpeak_CapitalLetters", &["SayCaps"]),
